@@ -317,17 +317,15 @@ class RDD:
                                 number_of_big_groups + number_of_small_groups)
                for _ in range(small_group_size)]
         )
-        new_partitions = {i: [] for i in range(new_num_partitions)}
-
         def partitioned():
-            def move_partition_content(partition_index, partition):
+            new_partitions = [[] for _ in range(new_num_partitions)]
+
+            # the contents come back as task results, so this also works
+            # when the tasks run in other processes
+            for partition_index, partition in enumerate(self.glom().collect()):
                 new_partitions[partition_mapping[partition_index]] += partition
-                return []
 
-            # trigger an evaluation with count
-            self.mapPartitionsWithIndex(move_partition_content).count()
-
-            for p in list(new_partitions.values()):
+            for p in new_partitions:
                 yield p
 
         # noinspection PyProtectedMember
